@@ -75,6 +75,13 @@ type c07Opts struct {
 	SrcMax   int64  `json:"src_max_rows,omitempty"`
 	// encryption of the source file (same modes and keys as Encrypt)
 	SrcEncrypt string `json:"src_encryption,omitempty"`
+	// "file-merge" path: the source declares column c00 (required int64, unique keys) as its sorting column,
+	// so that MergeRowGroups builds a sorted merge: "disjoint" = row groups with disjoint key ranges
+	// (segments = the file row groups), "overlap" = every row group shares half of its key range with the
+	// next one (refined segments: row-range views and heap merges)
+	SrcSorted string `json:"src_sorted,omitempty"`
+	// the file is written without bloom filters (members of the "multi" sub-check only)
+	NoBloom bool `json:"no_bloom,omitempty"`
 }
 
 type c07Case struct {
@@ -89,6 +96,9 @@ type c07Case struct {
 	file      []byte
 	misplaced map[[2]int]string // (row group, leaf) -> what is wrong with the chunk's filter region
 	groups    []c07Group        // "buffer" path: output row group -> WriteRowGroup call (see bufferGroup)
+	srcRows   []int64           // file-* paths: rows of the source file's row groups
+	packed    []c07Packed       // "file-merge" path: output row group -> batch of source row groups (see packedGroup)
+	packedOk  int               // 0 not computed, 1 layout predicted, 2 not predictable
 }
 
 func (c c07Col) phys() string {
@@ -402,6 +412,11 @@ func c07GenCase(ctx *core.Ctx, index int) *c07Case {
 	if r.Intn(4) == 0 {
 		o.FlushEvery = 1 + r.Intn(5)
 	}
+	if o.FlushEvery > 0 && cs.N/(o.Batch*o.FlushEvery) > 256 {
+		// at most ~256 row groups per file (2500 rows flushed every 3 rows = 834 row groups x 13 columns took
+		// more than the per-case time limit on a loaded machine)
+		o.Batch = cs.N/(256*o.FlushEvery) + 1
+	}
 	if strings.HasPrefix(cs.Path, "file-") || cs.Path == "copyrows" {
 		o.SrcCodec, o.SrcPageV, o.SrcBloom, o.SrcMax = o.Codec, o.PageV, "same", []int64{0, 0, 50, 100}[r.Intn(4)]
 		if cs.Path != "file-copy" {
@@ -426,7 +441,21 @@ func c07GenCase(ctx *core.Ctx, index int) *c07Case {
 	if (cs.Path == "buffer" || cs.Path == "file-reencode" || cs.Path == "file-merge") && o.DictMax == 0 && r3.Intn(3) == 0 {
 		o.DictMax = []int64{16, 64, 256}[r3.Intn(3)]
 	}
+	// round 4: sorted merges, own stream
+	r4 := ctx.Rand(fmt.Sprintf("files/%d/round4", index))
+	if cs.Path == "file-merge" && r4.Intn(2) == 0 {
+		o.SrcSorted = []string{"disjoint", "disjoint", "overlap"}[r4.Intn(3)]
+		o.SrcMax = []int64{50, 100}[r4.Intn(2)]
+		o.FlushEvery = 0
+		cs.Cols[0] = c07Col{Name: cs.Cols[0].Name, Kind: "int64", Enc: []string{"", "plain", "dict", "delta"}[r4.Intn(4)],
+			Bits: cs.Cols[0].Bits, Alph: 0}
+	}
 	cs.rows = c07GenRows(r, cs.Cols, cs.N)
+	if o.SrcSorted != "" {
+		for i := range cs.rows {
+			cs.rows[i][0] = []c07Val{{U: uint64(cs.sortKey(i))}}
+		}
+	}
 	if cs.Path == "any" {
 		// Writer.Write(any) goes through reflect.Value.Float(): a float32 signalling NaN is stored quieted
 		// (the stored value differs from the one handed over; that is C01's subject, F21 family), so
@@ -444,6 +473,18 @@ func c07GenCase(ctx *core.Ctx, index int) *c07Case {
 		}
 	}
 	return cs
+}
+
+// sortKey: the key of source row i (sorted sources): unique, ascending inside every source row group of
+// SrcMax rows; "overlap": row group g covers keys [g*S, g*S+2S) in steps of 2 with parity g%2, i.e. its
+// upper half interleaves with the lower half of row group g+1
+func (cs *c07Case) sortKey(i int) int64 {
+	S := int(cs.Opts.SrcMax)
+	if cs.Opts.SrcSorted != "overlap" || S <= 0 {
+		return int64(i) * 3
+	}
+	g, p := i/S, i%S
+	return int64(2*(g*(S/2)+p) + g%2)
 }
 
 func c07Codec(name string) compress.Codec {
@@ -481,7 +522,7 @@ func (cs *c07Case) options(src bool) []parquet.WriterOption {
 		}
 		filters = append(filters, parquet.SplitBlockFilter(bits, c.Name))
 	}
-	if !(src && o.SrcBloom == "none") {
+	if !(src && o.SrcBloom == "none") && !o.NoBloom {
 		opts = append(opts, parquet.BloomFilters(filters...))
 	}
 	maxRows, codec, pagev := o.MaxRows, o.Codec, o.PageV
@@ -516,6 +557,9 @@ func (cs *c07Case) options(src bool) []parquet.WriterOption {
 		}
 	} else if ec := cs.encryptionMode(o.SrcEncrypt); ec != nil {
 		opts = append(opts, parquet.WithEncryption(ec))
+	}
+	if src && o.SrcSorted != "" {
+		opts = append(opts, parquet.SortingWriterConfig(parquet.SortingColumns(parquet.Ascending(cs.Cols[0].Name))))
 	}
 	return opts
 }
@@ -753,6 +797,15 @@ func (cs *c07Case) write() (data []byte, err error) {
 		if err != nil {
 			return nil, fmt.Errorf("source: %w", err)
 		}
+		cs.srcRows = nil
+		for _, rg := range sf.RowGroups() {
+			cs.srcRows = append(cs.srcRows, rg.NumRows())
+		}
+		if o.SrcSorted != "" {
+			// the merge emits the rows in key order (keys are unique): that is the order the output row
+			// groups are attributed in
+			sort.SliceStable(cs.rows, func(a, b int) bool { return int64(cs.rows[a][0][0].U) < int64(cs.rows[b][0][0].U) })
+		}
 		switch cs.Path {
 		case "file-merge":
 			if len(sf.RowGroups()) > 0 {
@@ -873,6 +926,9 @@ func (cs *c07Case) describe(seed int64) map[string]any {
 
 func c07RunCase(ctx *core.Ctx, b *c07Batch, cs *c07Case) {
 	ctx.Hist("files.path", cs.Path)
+	if cs.Opts.SrcSorted != "" {
+		ctx.Hist("files.sorted-merge", cs.Opts.SrcSorted)
+	}
 	data, err := cs.write()
 	if err != nil {
 		ctx.Hist("files.write-error", cs.Path+": "+c07ErrClass(err))
@@ -981,6 +1037,10 @@ func c07CheckChunk(ctx *core.Ctx, b *c07Batch, cs *c07Case, f *parquet.File, rgi
 			if why := cs.misplaced[[2]int{rgi, leaf}]; why != "" {
 				// the footer does not name a region of its own for this chunk's filter
 				situation = "filter-region-" + why
+			} else if cs.packedMissesEarlierSegment(ctx, b, f, rgi, ci, col, toks[i]) {
+				// WriteRowGroup(merge of file row groups) packed several source row groups into this one and
+				// the value was not written with the last of them
+				situation = "packed-merge-filter-misses-earlier-segment"
 			} else if cs.Opts.Encrypt != "" && cs.Opts.BloomComp == "gzip" && size%32 != 0 {
 				// the reader decompresses the filter of an encrypted column eagerly: its Size() is the bitset's,
 				// a whole number of 32-byte blocks; anything else is the length of the gzip stream
@@ -1417,6 +1477,41 @@ func c07StrategyL2(ctx *core.Ctx, b *c07Batch, cs *c07Case, f *parquet.File, rgi
 		} else {
 			ctx.Hist("files.presize", "later-group-of-split-call")
 		}
+	case "file-merge":
+		// WriteRowGroup(MergeRowGroups(file row groups)): writeSegmentsPacked batches the source row groups
+		// (Lean `packBatches`); a batch of >= 2 is re-encoded into ONE output row group whose filter is
+		// sized once for the batch (Lean `packedPresize` = configureBloomFiltersForSegments).
+		if cs.Opts.SrcSorted == "overlap" { // refined segments (row-range views, heap merges): not predicted
+			ctx.Hist("files.strategy", "skipped-presize-unknown")
+			return
+		}
+		g, ok := cs.packedGroup(ctx, b, f, rgi)
+		if !ok || len(g.segs) < 2 {
+			ctx.Hist("files.strategy", "skipped-presize-unknown")
+			return
+		}
+		total := int64(0)
+		var toks []string
+		for _, si := range g.segs {
+			lo, hi := cs.srcSpan(si)
+			nv := int64(0)
+			for _, row := range cs.rows[lo:hi] {
+				nv += int64(max(1, len(row[ci])))
+			}
+			total += nv
+			toks = append(toks, fmt.Sprintf("%d.1", nv))
+		}
+		presized = parquet.SplitBlockFilter(col.Bits, col.Name).Size(total)
+		preq := fmt.Sprintf("bloom.packsize %d %s", col.Bits, strings.Join(toks, ","))
+		want := fmt.Sprintf("ok %d", presized)
+		b.add(preq, func(resp string) {
+			if resp != want {
+				d := where()
+				d["request"], d["go"], d["lean"] = preq, want, resp
+				ctx.Fail("L2", "packed-presize-vs-mirror", "harness transcription of configureBloomFiltersForSegments differs from the Lean mirror `packedPresize`", d)
+			}
+		})
+		ctx.Hist("files.presize", fmt.Sprintf("packed batch of %s segments", c07Bucket(len(g.segs))))
 	default:
 		ctx.Hist("files.strategy", "skipped-presize-unknown")
 		return
@@ -1589,6 +1684,142 @@ func (cs *c07Case) bufferGroup(f *parquet.File, rgi int) (c07Group, bool) {
 	return cs.groups[rgi], true
 }
 
+type c07Packed struct {
+	segs []int // source row groups written into this output row group's batch
+}
+
+// rows [lo, hi) of the source row group si
+func (cs *c07Case) srcSpan(si int) (lo, hi int) {
+	for i := 0; i < si; i++ {
+		lo += int(cs.srcRows[i])
+	}
+	return lo, lo + int(cs.srcRows[si])
+}
+
+// packedGroup: for the "file-merge" path, which source row groups were batched into output row group rgi.
+// Go transcription of the loop of writeSegmentsPacked, compared with the Lean mirror `packBatches`; the
+// row counts of the output row groups it implies (a batch of >= 2 segments: one row group; a single
+// segment within the limit: one row group; a single segment above the limit: split by the row path)
+// must be those of the file.
+func (cs *c07Case) packedGroup(ctx *core.Ctx, b *c07Batch, f *parquet.File, rgi int) (c07Packed, bool) {
+	if cs.packedOk == 0 {
+		cs.packedOk = 2
+		maxRows := cs.Opts.MaxRows
+		if maxRows <= 0 {
+			maxRows = math.MaxInt64
+		}
+		anySmall := false
+		for _, n := range cs.srcRows {
+			anySmall = anySmall || n <= maxRows
+		}
+		// splittableCopyableSegments: >= 2 segments, one of them writable through a segment path
+		if len(cs.srcRows) >= 2 && anySmall {
+			var batches [][]int
+			var pending []int
+			pendingRows := int64(0)
+			flush := func() {
+				if len(pending) > 0 {
+					batches = append(batches, pending)
+				}
+				pending, pendingRows = nil, 0
+			}
+			var toks []string
+			for i, n := range cs.srcRows {
+				if n <= maxRows {
+					toks = append(toks, fmt.Sprintf("%d.1", n))
+					if pendingRows > 0 && pendingRows+n > maxRows {
+						flush()
+					}
+					pending = append(pending, i)
+					pendingRows += n
+				} else {
+					toks = append(toks, fmt.Sprintf("%d.0", n))
+					flush()
+					batches = append(batches, []int{i})
+				}
+			}
+			flush()
+			var bt []string
+			for _, bb := range batches {
+				bt = append(bt, strings.Trim(strings.ReplaceAll(fmt.Sprint(bb), " ", "+"), "[]"))
+			}
+			mr := cs.Opts.MaxRows
+			if mr <= 0 {
+				mr = 1 << 62
+			}
+			req := fmt.Sprintf("bloom.pack %d %s", mr, strings.Join(toks, ","))
+			want := "ok " + strings.Join(bt, ",")
+			desc := cs.describe(ctx.Seed)
+			b.add(req, func(resp string) {
+				if resp != want {
+					desc["request"], desc["go"], desc["lean"] = req, want, resp
+					ctx.Fail("L2", "packed-batches-vs-mirror", "harness transcription of writeSegmentsPacked differs from the Lean mirror `packBatches`", desc)
+				}
+			})
+			var sizes []int64
+			var groups []c07Packed
+			for _, bb := range batches {
+				n := int64(0)
+				for _, si := range bb {
+					n += cs.srcRows[si]
+				}
+				if len(bb) == 1 && n > maxRows {
+					for n > 0 {
+						k := min(n, maxRows)
+						sizes, groups = append(sizes, k), append(groups, c07Packed{segs: bb})
+						n -= k
+					}
+				} else {
+					sizes, groups = append(sizes, n), append(groups, c07Packed{segs: bb})
+				}
+			}
+			rgs := f.RowGroups()
+			ok := len(rgs) == len(sizes)
+			for i := 0; ok && i < len(rgs); i++ {
+				ok = rgs[i].NumRows() == sizes[i]
+			}
+			if ok {
+				cs.packed, cs.packedOk = groups, 1
+				ctx.Hist("files.packed-layout", "as predicted")
+			} else {
+				var got []int64
+				for _, rg := range rgs {
+					got = append(got, rg.NumRows())
+				}
+				desc["source_row_groups"], desc["predicted_row_groups"], desc["file_row_groups"] = cs.srcRows, sizes, got
+				ctx.Fail("L2", "packed-row-group-layout-vs-mirror", "the output row groups of WriteRowGroup(merge of file row groups) are not those the mirror of writeSegmentsPacked predicts", desc)
+			}
+		} else {
+			ctx.Hist("files.packed-layout", "not split into segments")
+		}
+	}
+	if cs.packedOk != 1 || rgi >= len(cs.packed) {
+		return c07Packed{}, false
+	}
+	return cs.packed[rgi], true
+}
+
+// packedMissesEarlierSegment: the chunk belongs to a packed batch of >= 2 source row groups ("file-merge"
+// path) and the value with token tok does not occur in the last source row group of the batch.
+func (cs *c07Case) packedMissesEarlierSegment(ctx *core.Ctx, b *c07Batch, f *parquet.File, rgi, ci int, col c07Col, tok string) bool {
+	if cs.Path != "file-merge" || cs.Opts.SrcSorted == "overlap" {
+		return false
+	}
+	g, ok := cs.packedGroup(ctx, b, f, rgi)
+	if !ok || len(g.segs) < 2 {
+		return false
+	}
+	lo, hi := cs.srcSpan(g.segs[len(g.segs)-1])
+	for _, row := range cs.rows[lo:hi] {
+		for _, v := range row[ci] {
+			if col.token(v) == tok {
+				return false
+			}
+		}
+	}
+	return true
+}
+
 // corpus case: {"path":..,"cols":[..],"opts":{..},"rows":[[["tok",..] per column] per row]}; tokens as
 // in the driver protocol (decimal bit patterns, hex bytes, "e" = empty)
 type c07CorpusCase struct {
@@ -1655,6 +1886,9 @@ type c07ReplayFile struct {
 		Case *struct {
 			Index int `json:"index"`
 		} `json:"case"`
+		MultiCase *struct {
+			Index int `json:"index"`
+		} `json:"multi_case"`
 	} `json:"detail"`
 }
 
@@ -1727,7 +1961,9 @@ func RunC07Files(ctx *core.Ctx) {
 		}
 		return
 	}
-	total := ctx.Scale(6000, 120000)
+	// thorough: 40 000 files per build (was 120 000, ~35 CPU-minutes per build: the most expensive
+	// sub-check of C07; thorough cases are also larger, see c07GenCase)
+	total := ctx.Scale(6000, 40000)
 	workers := 14
 	jobs := make(chan int, total)
 	for i := 0; i < total; i++ {
@@ -1760,8 +1996,8 @@ func RunC07Files(ctx *core.Ctx) {
 				}()
 				select {
 				case <-done:
-				case <-time.After(60 * time.Second):
-					ctx.Fail("L1", "hang-"+cs.Path, "writing/checking did not finish within 60 s", cs.describe(ctx.Seed))
+				case <-time.After(180 * time.Second):
+					ctx.Fail("L1", "hang-"+cs.Path, "writing/checking did not finish within 180 s", cs.describe(ctx.Seed))
 					return // the batch may be in use by the stuck goroutine
 				}
 			}
